@@ -52,7 +52,8 @@ func (p *c02) Draw(t *rapid.T, tier string) *runner.Scenario {
 	del := gen.Delivery(t)
 	rd := drive.ReadSpec{UseIndex: true, Order: rapid.IntRange(0, 2).Draw(t, "order"), MetaCB: true,
 		NextMode:       pick(t, "read.next", "into_nil", "next_nil", "into_reuse", "next_buf"),
-		OmitUsingIndex: rapid.Bool().Draw(t, "omit_using_index")}
+		OmitUsingIndex: rapid.Bool().Draw(t, "omit_using_index"),
+		InfoFirst:      rapid.Bool().Draw(t, "info_first")}
 	return &runner.Scenario{Cfg: &cfg, WL: &wl, Delivery: &del, Read: &rd}
 }
 
